@@ -123,8 +123,16 @@ pub fn generate<W: Write>(c: &mut Cases<W>, rng: &mut Rng, thorough: bool) {
                 }
                 1 => cursors().fold(Merger::builder(&mf), |b, cur| b.add(cur)),
                 _ => {
+                    // push the first sources, extend with the others (twice): positions keep counting
                     let mut b = Merger::builder(&mf);
-                    b.extend(cursors());
+                    let mut it = cursors();
+                    let n = files.len();
+                    for _ in 0..n / 3 {
+                        b.push(it.next().unwrap());
+                    }
+                    let mid: Vec<_> = (0..n / 3).filter_map(|_| it.next()).collect();
+                    b.extend(mid);
+                    b.extend(it);
                     b
                 }
             };
@@ -162,7 +170,11 @@ pub fn generate<W: Write>(c: &mut Cases<W>, rng: &mut Rng, thorough: bool) {
         let wres = catch(|| -> Result<Vec<u8>, String> {
             let mut b = Merger::builder(&mf2);
             if files.len() % 2 == 0 {
-                b.extend(files.iter().map(|f| Reader::new(Cursor::new(&f[..])).unwrap().into_cursor().unwrap()));
+                let mut it = files.iter().map(|f| Reader::new(Cursor::new(&f[..])).unwrap().into_cursor().unwrap());
+                if let Some(first) = it.next() {
+                    b.push(first);
+                }
+                b.extend(it);
             } else {
                 for f in &files {
                     b.push(Reader::new(Cursor::new(&f[..])).unwrap().into_cursor().unwrap());
